@@ -202,8 +202,8 @@ def run(idx):
         ln = lines[m["line"] - 1]
         lines[m["line"] - 1] = ln[:m["col"][0]] + m["new"] + ln[m["col"][1]:]
         open(path, "w", newline="").write("\n".join(lines))
-        diff = sh(f"git -C {wt} diff").stdout
-        (OUT / f"{idx}.diff").write_text(diff)
+        diff = subprocess.run(["git", "-C", wt, "diff"], capture_output=True).stdout   # bytes: the C files use CRLF
+        (OUT / f"{idx}.diff").write_bytes(diff)
         if m["file"].endswith((".c", ".h")):
             b = sh(f"{wt}/REBUILD.sh")
             if b.returncode != 0:
@@ -242,6 +242,8 @@ def table():
     for r in rows:
         if r.get("status") != "survived-suite":
             out = r.get("status")
+        elif r.get("check_rc") is None:
+            out = "check-not-run"
         elif r.get("check_rc") == 0:
             out = "NOT REPORTED"
         else:
